@@ -6,10 +6,12 @@ open Vchain
 let model input =
   let h = parse_history input in
   let s = ref (Chain.init h.gid h.gpl) in
-  let steps = Stdlib.List.map (fun sub ->
+  let n = Stdlib.List.length h.subs and sparse = is_sparse h in
+  let steps = Stdlib.List.mapi (fun i sub ->
       let (s', o) = Chain.add h.forbidden !s sub in
       s := s';
-      Printf.sprintf "%s/%s/%s" (outcome_string o) (tip_string s') (states_string s')) h.subs in
+      if sparse && not (sparse_sampled i n) then outcome_string o ^ "/-/-"
+      else Printf.sprintf "%s/%s/%s" (outcome_string o) (tip_string s') (states_string s')) h.subs in
   Stdlib.String.concat ";" steps ^ "|" ^ rows_string !s
 
 (* the specification applied to the IMPLEMENTATION's observable *)
@@ -31,9 +33,9 @@ let spec input obs =
               | ChainSpec.VDuplicate -> "D" | ChainSpec.VForbidden -> "F"
               | ChainSpec.VStored ->
                 let r = Stdlib.List.hd s' in "S" ^ st_letter (ChainSpec.spec_label s' r) in
-            let want_states = states_string (ChainSpec.spec_store s') in
-            let want_tip = dec_of_n (ChainSpec.spec_tip s') in
-            let want = Printf.sprintf "%s/%s/%s" want_o want_tip want_states in
+            let sampled = not (is_sparse h) || sparse_sampled i (Stdlib.List.length h.subs) in
+            let want = if sampled then Printf.sprintf "%s/%s/%s" want_o (dec_of_n (ChainSpec.spec_tip s')) (states_string (ChainSpec.spec_store s'))
+              else want_o ^ "/-/-" in
             if step <> want then begin
               let got_o = Stdlib.List.hd (split_on '/' step) in
               let zero_child_of_tip = (work_of sub = BinNums.Z0) && (sub.Store.s_prev = before_tip) && v = ChainSpec.VStored in
